@@ -458,6 +458,10 @@ class StreamResponse(
         if self._payload_writer is None:
             raise RuntimeError("Cannot call write() before prepare()")
 
+        if self._must_be_empty_body:
+            # HEAD, 1xx, 204, 304: the response carries no content, whatever
+            # the handler streams (the same handler usually serves GET too).
+            return
         await self._payload_writer.write(data)
 
     async def drain(self) -> None:
@@ -480,6 +484,8 @@ class StreamResponse(
 
         assert self._payload_writer is not None, "Response has not been started"
 
+        if self._must_be_empty_body:
+            data = b""
         await self._payload_writer.write_eof(data)
         self._eof_sent = True
         self._req = None
